@@ -97,6 +97,13 @@ type PoolInv struct {
 	Src          string
 }
 
+type ChanRole struct {
+	Field string              // T.f
+	Ops   map[string][]string // send/recv/close -> function names
+}
+
+type SyncCall struct{ Iface, Method, In string }
+
 type LockInv struct {
 	Owner, Field string
 	E            Expr
@@ -119,6 +126,8 @@ type SpecSet struct {
 	Axioms  []AxiomDecl
 	Pools   []PoolInv
 	LockInvs []LockInv
+	ChanRoles []ChanRole
+	SyncCalls []SyncCall
 	Consts  map[string]string // const-global name -> mode
 	Errors  []string
 }
@@ -503,6 +512,37 @@ func (ss *SpecSet) LoadSpecFile(path, pkgPath string, assumed bool) error {
 				g.Mode = "guarded"
 			}
 			ss.Guards = append(ss.Guards, g)
+		case "chanrole":
+			// chanrole T.f send:F,G recv:H close:-
+			parts := strings.Fields(rest)
+			if len(parts) < 2 {
+				fail(i, "bad chanrole")
+				continue
+			}
+			cr := ChanRole{Field: parts[0], Ops: map[string][]string{}}
+			for _, p := range parts[1:] {
+				op, fns, ok := strings.Cut(p, ":")
+				if !ok {
+					fail(i, "bad chanrole item %q", p)
+					continue
+				}
+				cr.Ops[op] = nil
+				for _, f := range strings.Split(fns, ",") {
+					if f != "" && f != "-" {
+						cr.Ops[op] = append(cr.Ops[op], f)
+					}
+				}
+			}
+			ss.ChanRoles = append(ss.ChanRoles, cr)
+		case "syncall":
+			// syncall I.M in F
+			parts := strings.Fields(rest)
+			if len(parts) != 3 || parts[1] != "in" {
+				fail(i, "bad syncall")
+				continue
+			}
+			ifc, m, _ := strings.Cut(parts[0], ".")
+			ss.SyncCalls = append(ss.SyncCalls, SyncCall{Iface: ifc, Method: m, In: parts[2]})
 		case "lockinv":
 			// lockinv Owner.field :: expr over x (the owner object): must hold whenever the lock is released
 			head, body, ok := strings.Cut(rest, "::")
